@@ -1573,3 +1573,77 @@ func ruleT4(c *Ctx, pkgs map[string]bool, floor int) {
 		})
 	}
 }
+
+// ---------------------------------------------------------------- U10
+
+// ruleU10: a function literal that takes a context (an Operation, Worker,
+// Producer, Processor, … that a combinator returns or stores) blocks on *its
+// own* context: inside its body no blocking wait is given a context captured
+// from the enclosing function while the literal has a context of its own.
+func ruleU10(c *Ctx, pkgs map[string]bool, floor int) {
+	R := c.R
+	p := c.P
+	R.Rule("U10", "a returned function that takes a context waits under that context: a WaitGroup.Wait / WaitChannel / blocking Read inside a context-taking literal is never handed the enclosing function's captured context instead (the caller's cancellation and deadline would be ignored, and a start context that has ended would turn the wait into a no-op)", floor)
+	for _, f := range p.Funcs {
+		if f.Lit == nil || !pkgs[shortPkg(f.Pkg.PkgPath)] {
+			continue
+		}
+		info := f.Info()
+		// the literal has a context parameter of its own (named or not)
+		ownIdx := -1
+		var own types.Object
+		i := 0
+		for _, fld := range f.Lit.Type.Params.List {
+			tv, ok := info.Types[fld.Type]
+			isCtx := ok && typeIs(tv.Type, "context", "Context")
+			if len(fld.Names) == 0 {
+				if isCtx && ownIdx < 0 {
+					ownIdx = i
+				}
+				i++
+				continue
+			}
+			for _, nm := range fld.Names {
+				if isCtx && ownIdx < 0 {
+					ownIdx = i
+					own = info.Defs[nm]
+				}
+				i++
+			}
+		}
+		if ownIdx < 0 {
+			continue
+		}
+		// only literals that are returned by (or are the value of) the enclosing function: the waiter shape
+		if _, isRet := p.Parent(f.Lit).(*ast.ReturnStmt); !isRet {
+			continue
+		}
+		n := 0
+		walkNoLit(f.Body, func(x ast.Node) bool {
+			call, ok := x.(*ast.CallExpr)
+			if !ok {
+				return true
+			}
+			if _, isWait := isWaitCall(info, call); !isWait || len(call.Args) != 1 {
+				return true
+			}
+			n++
+			at := fmt.Sprintf("%s/wait#%d", f.Name, n)
+			pos := p.Position(call.Pos())
+			id, isId := ast.Unparen(call.Args[0]).(*ast.Ident)
+			if !isId {
+				R.OK("U10", at, pos, "the wait is given "+exprStr(call.Args[0]))
+				return true
+			}
+			o := info.Uses[id]
+			captured := false
+			for g := f.Parent; g != nil; g = g.Parent {
+				if _, isParam := paramIndex(g, o); isParam {
+					captured = true
+				}
+			}
+			R.Check(!(captured && o != own), "U10", at, pos, "the wait runs under the literal's own context", fmt.Sprintf("%s waits under %s, the context of the enclosing %s, not under the context it is called with: once the start context has ended the waiter returns at once although the workers are still running, and the caller's own deadline is ignored", f.Name, id.Name, f.Root().Name))
+			return true
+		})
+	}
+}
